@@ -68,7 +68,17 @@ def large_case(item):
 
     K = len(par)
     state, n = forest_state(par, [1 + (i % 2) for i in range(K)])
-    data = oracle.make_data(n, dims=dims, grid=G, kind=kind, seed=seed)
+    data = oracle.make_data(n, dims=dims, grid=G, kind=("peaked" if kind == "sharp" else kind), seed=seed)
+    if kind == "sharp":
+        # sharply peaked clones: the first clones near CCF 1, later ones small, so that optimal indices and split points lie in the top of the grid
+        import numpy as np
+
+        x = np.linspace(0, 1, G)
+        cs = [0.97, 0.88, 0.06, 0.03, 0.5, 0.01]
+        for d_ in data:
+            for dim in range(dims):
+                c = cs[(d_.idx + 2 * dim) % len(cs)] if dim == 0 else cs[(d_.idx * 5 + 1) % len(cs)]
+                d_.value[dim, :] = -4000.0 * (x - c) ** 2
     res = {"item": item, "problems": [], "n": 0}
     ch = oracle.children_map(state)
     t = oracle.build(state, data)
@@ -217,6 +227,11 @@ def main(tier, seed):
         if abs(dp_max(st_, dd, 0) - brute_max(st_, dd, 0)[0]) > 1e-9:
             chk.violation({"sub": "oracle"}, {"problem": "harness: max-plus oracle disagrees with the brute force"}, {"oracle": list(par)})
     litems = [(par, G, dims, kind, seed) for par in large_forests() for G in (5, 11) for dims, kind in ((1, "generic"), (2, "peaked"), (1, "ties" if False else "flat"))]
+    # grids beyond 255 points (index tables must hold every grid index) on small forests with peaked two-sample data
+    for par in ((-1,), (-1, 0), (-1, 0, 1), (-1, 0, 0), (-1, -1, 0), (-1, 0, 1, 1)):
+        for G in ((256, 257, 301) if tier == "quick" else (255, 256, 257, 301, 400, 1000)):
+            litems.append((par, G, 2, "peaked", seed))
+            litems.append((par, G, 2, "sharp", seed))
     for r in pool_imap(large_case, litems, chunksize=2):
         chk.states.add(("large",) + tuple(r["item"][:4]))
         chk.nontrivial.add(("large",) + tuple(r["item"][:4]))
